@@ -2,8 +2,8 @@ package checks
 
 import (
 	"os"
-	"runtime"
 	"path/filepath"
+	"runtime"
 	"sort"
 	"strconv"
 	"strings"
